@@ -10,10 +10,23 @@
 package main
 
 import (
+	"os"
+	"runtime"
+	"strconv"
+
 	"github.com/smart-core-os/sc-golang/internal/verif/vk"
 )
 
-func main() { vk.Main("C08", run) }
+func main() {
+	// Every scenario is sequenced by quiescent points, each of which stops the world at least twice; with one
+	// worker process per core a small GOMAXPROCS makes that several times cheaper and changes no verdict.
+	procs := 2
+	if v, err := strconv.Atoi(os.Getenv("C08_GOMAXPROCS")); err == nil && v > 0 {
+		procs = v
+	}
+	runtime.GOMAXPROCS(procs)
+	vk.Main("C08", run)
+}
 
 func run(r *vk.Run) {
 	r.Describe("generic part: predicates are the 64 truth tables over (id in {a,b}) x (value in {absent, v0, v1}); write histories are words over "+
